@@ -175,7 +175,7 @@ func (l *Lab) Gen(r *rand.Rand, o LabOpts) *LabCase {
 			}
 			c.Val = l.value(r, api, name, i, o.Hostile)
 			if r.IntN(8) == 0 {
-				c.Via = []string{"helper", "closure", "subpkg", "goroutine", "direct-nontest", "direct-othertest"}[r.IntN(6)]
+				c.Via = []string{"helper", "closure", "subpkg", "goroutine", "direct-nontest", "direct-othertest", "nontest-via-othertest"}[r.IntN(7)]
 			}
 			n.Calls = append(n.Calls, c)
 		}
